@@ -96,6 +96,9 @@ CHECKS["C16"] = {
         {"name": "reject", "pkg": "internal/msgpipeline", "run": "^TestVerifC16",
          "overlay": {"verif_c16_test.go": "harness/C16/reject_test.go"},
          "quick": {"shards": 1}, "thorough": {"shards": 1}},
+        {"name": "check-action", "pkg": "framework/config/module", "run": "^TestVerifC16Action$",
+         "overlay": {"verif_c16_test.go": "harness/C16/check_action_test.go"},
+         "quick": {"shards": 1}, "thorough": {"shards": 1}},
         {"name": "smtpconn", "pkg": "internal/smtpconn", "run": "^TestVerifC16Client$",
          "overlay": {"verif_c16_test.go": "harness/C16/smtpconn_test.go"},
          "quick": {"shards": 2}, "thorough": {"shards": 4}},
